@@ -1,6 +1,9 @@
 package main
 
 import (
+	"path/filepath"
+	"os"
+	"encoding/json"
 	"fmt"
 	"go/ast"
 	"go/token"
@@ -292,6 +295,38 @@ func checkC18(c *Ctx, r *Report) {
 
 	// ---- C18.d file and range come from the same entity
 	checkDiagOperands(c, r)
+
+	// the warning attached to a receiver's entity is built from that very entry
+	if fi := need(c, r, "C18.d", "(*core/validators.ApiValidator).adjustDiagsForConflictingEntry"); fi != nil {
+		viol := ""
+		var sites []string
+		fd := w.defsOf(fi)
+		n := 0
+		ast.Inspect(fi.Decl.Body, func(nd ast.Node) bool {
+			call, ok := nd.(*ast.CallExpr)
+			if !ok {
+				return true
+			}
+			se, ok := call.Fun.(*ast.SelectorExpr)
+			if !ok || se.Sel.Name != "AddDiagnostic" || len(call.Args) != 1 {
+				return true
+			}
+			n++
+			sites = append(sites, w.pos(call.Pos()))
+			if rt := w.exprRoot(fi, fd, call.Args[0], 0); rt != "param:entry" {
+				viol = fmt.Sprintf("%s: the diagnostic attached to the entry's receiver is not built from that entry (root %s): a route-conflict warning then carries the other method's file and @Route range, and the same diagnostic is listed under both receivers", w.pos(call.Pos()), rt)
+			}
+			return true
+		})
+		if n < 1 {
+			viol = "no AddDiagnostic call in adjustDiagsForConflictingEntry"
+		}
+		r.add("C18.d", "fieldflow", fi.Key+":diagnostic-of-its-own-entry", "each conflicting method gets a warning located at its own @Route annotation", []string{fi.Key}, sites, viol)
+	}
+	// the value a diagnostic's range is searched by is the text as written
+	checkAnnotationRegex(c, r, "C18.c")
+	// every documented diagnostic code can still be produced
+	checkDiagCodesLive(c, r)
 }
 
 func litString0(e ast.Expr) string {
@@ -451,7 +486,7 @@ func checkDiagOperands(c *Ctx, r *Report) {
 	w := c.W
 	// ties: roots that denote the same entity inside methods of one type, with the fact that ties them
 	ties := map[string][][2]string{
-		"core/validators.AnnotationLinkValidator": {{"recv.receiver", "recv.groupedAttributes"}, {"recv.receiver", "param:attr"}},
+		"core/validators.AnnotationLinkValidator": {{"recv.receiver", "recv.groupedAttributes"}, {"recv.receiver", "param:<attribute>"}},
 		"core/validators.ReceiverValidator":       {{"param:receiver", "param:param"}},
 		"core/validators.CommonValidator":         {{"recv.holder", "param:attribute"}},
 		"core/validators.getDiagForRetSig":        {},
@@ -487,6 +522,25 @@ func checkDiagOperands(c *Ctx, r *Report) {
 		fd := w.defsOf(fi)
 		fr := w.exprRoot(fi, fd, call.Args[0], 0)
 		rg := w.exprRoot(fi, fd, call.Args[len(call.Args)-1], 0)
+		// a parameter of type annotations.Attribute is "an attribute handed in by the caller" whatever its name
+		normAttr := func(root string) string {
+			if !strings.HasPrefix(root, "param:") {
+				return root
+			}
+			sig := fi.Obj.Type().(*types.Signature)
+			for i := 0; i < sig.Params().Len(); i++ {
+				pv := sig.Params().At(i)
+				if "param:"+pv.Name() == root {
+					if nt, ok := derefNamed(pv.Type()); ok && nt.Obj().Name() == "Attribute" {
+						return "param:<attribute>"
+					}
+				}
+			}
+			return root
+		}
+		if strings.Contains(fnk, "AnnotationLinkValidator") {
+			fr, rg = normAttr(fr), normAttr(rg)
+		}
 		all = append(all, site{w.pos(cl.Pos()), fnk, fr, rg})
 		if fr == rg {
 			continue
@@ -542,8 +596,21 @@ func checkDiagOperands(c *Ctx, r *Report) {
 		v := ""
 		var ss []string
 		n := 0
+		attrMethods := map[string]int{} // method -> index of its Attribute parameter
+		for k, mfi := range w.Funcs {
+			if !strings.HasPrefix(k, "(core/validators.AnnotationLinkValidator).") || mfi.Obj == nil {
+				continue
+			}
+			sig := mfi.Obj.Type().(*types.Signature)
+			for i := 0; i < sig.Params().Len(); i++ {
+				if nt, ok := derefNamed(sig.Params().At(i).Type()); ok && nt.Obj().Name() == "Attribute" {
+					attrMethods[k] = i
+				}
+			}
+		}
 		for _, cl := range w.callersOf(func(nm string) bool {
-			return strings.HasPrefix(nm, "(core/validators.AnnotationLinkValidator).getPathAlias")
+			_, ok := attrMethods[nm]
+			return ok
 		}) {
 			fnk := fnShort(cl.Parent())
 			fi := w.fn(fnk)
@@ -557,18 +624,19 @@ func checkDiagOperands(c *Ctx, r *Report) {
 				}
 				return true
 			})
-			if call == nil || len(call.Args) == 0 {
+			ai := attrMethods[calleeName(cl)]
+			if call == nil || len(call.Args) <= ai {
 				continue
 			}
 			n++
 			ss = append(ss, w.pos(cl.Pos()))
-			rt := w.exprRoot(fi, w.defsOf(fi), call.Args[0], 0)
-			if rt != "recv.groupedAttributes" && rt != "param:attr" {
+			rt := w.exprRoot(fi, w.defsOf(fi), call.Args[ai], 0)
+			if rt != "recv.groupedAttributes" && !strings.HasPrefix(rt, "param:") {
 				v = fmt.Sprintf("%s: %s passes an attribute that is not one of the validator's own classified attributes (root %s)", w.pos(cl.Pos()), fnk, rt)
 			}
 		}
 		if n < 2 {
-			v = fmt.Sprintf("expected >= 2 calls of getPathAliasOr*, found %d", n)
+			v = fmt.Sprintf("expected >= 2 calls of attribute helpers of the link validator, found %d", n)
 		}
 		r.add("C18.d", "fieldflow", "tie:AnnotationLinkValidator(attr)", "attributes handed to the alias helpers are the validator's own", []string{"core/validators.AnnotationLinkValidator"}, ss, v)
 	}
@@ -630,4 +698,60 @@ func checkDiagOperands(c *Ctx, r *Report) {
 		}
 		r.add("C18.d", "fieldflow", "tie:CommonValidator(holder,attribute)", "attribute diagnostics of the common validator concern attributes of its own holder (or an attribute handed in by its caller)", []string{"core/validators.CommonValidator"}, ss, v)
 	}
+}
+
+// checkDiagCodesLive: a DiagnosticCode constant that no validator references any more means
+// the rule it documents is reported under some other code (or not at all).
+func checkDiagCodesLive(c *Ctx, r *Report) {
+	w := c.W
+	unusedOK := map[string]string{}
+	if b, err := os.ReadFile(filepath.Join(c.VerifDir, "tables", "diag.json")); err == nil {
+		var t struct {
+			Unused map[string]string `json:"unused_codes"`
+		}
+		if json.Unmarshal(b, &t) == nil {
+			unusedOK = t.Unused
+		}
+	}
+	dc := w.lookupType(pkgDiag, "DiagnosticCode")
+	consts := w.constsOfType(dc)
+	used := map[string]bool{}
+	for _, p := range w.Pkgs {
+		for _, f := range p.Syntax {
+			ast.Inspect(f, func(n ast.Node) bool {
+				id, ok := n.(*ast.Ident)
+				if !ok {
+					return true
+				}
+				if cst, ok := p.TypesInfo.Uses[id].(*types.Const); ok && dc != nil && types.Identical(cst.Type(), dc) {
+					used[cst.Name()] = true
+				}
+				return true
+			})
+		}
+	}
+	viol := ""
+	var sites []string
+	var names []string
+	for nme := range consts {
+		names = append(names, nme)
+	}
+	sort.Strings(names)
+	for _, nme := range names {
+		if used[nme] {
+			continue
+		}
+		if _, ok := unusedOK[nme]; ok {
+			continue
+		}
+		viol = fmt.Sprintf("diagnostic code %s (%q) is declared but no validator produces it any more: the violation it documents is now reported under a different code, or not at all", nme, consts[nme])
+	}
+	if len(consts) < 30 {
+		viol = fmt.Sprintf("only %d DiagnosticCode constants found (floor 30)", len(consts))
+	}
+	if dc != nil {
+		sites = append(sites, w.pos(dc.Obj().Pos()))
+	}
+	o := r.add("C18.e", "readset", "diagnostic-codes⊆produced", fmt.Sprintf("each of the %d diagnostic codes is referenced by gleece (except the %d reviewed never-used ones)", len(consts), len(unusedOK)), []string{pkgDiag + ".DiagnosticCode"}, sites, viol)
+	o.NonTrivial = true
 }
